@@ -112,7 +112,7 @@ def validated(self: "obj:nbdime.diff_format.MappingDiffBuilder") -> "Seq[ME]":
 @contract("nbdime.diffing.generic.diff_dicts", properties=["C02", "C11", "C01"])
 def diff_dicts(a: "map", b: "map", path: "path", config: "cfg") -> "Seq[ME]":
     # table contract: every registered differ patches x into y (as for diff_lists)
-    requires(differs_ok())
+    requires(differs_ok() and atomic_ok())
     # no sequence predicates are registered for a dict path (otherwise the function raises RuntimeError by design)
     requires(not has_preds(path_norm(path)))
     # values compared with python `!=` (different types, or atomic): python equality is exact on them.  This is the clause
